@@ -21,15 +21,15 @@ func (c c13Cfg) String() string {
 
 // c13View gives names to the state of one cycle.
 type c13View struct {
-	st                    *smt.Store
-	c                     c13Cfg
-	sp, rsp, wsp          *smt.Term // 8-bit extended
-	sendSM, recvSM        *smt.Term // 8-bit extended
-	mem                   []*smt.Term
-	sAck, rAck            []*smt.Term // Bool
-	rData                 []*smt.Term
-	sWrite, rRead, sData  []*smt.Term // inputs (Bool / data)
-	empty, full           *smt.Term
+	st                   *smt.Store
+	c                    c13Cfg
+	sp, rsp, wsp         *smt.Term // 8-bit extended
+	sendSM, recvSM       *smt.Term // 8-bit extended
+	mem                  []*smt.Term
+	sAck, rAck           []*smt.Term // Bool
+	rData                []*smt.Term
+	sWrite, rRead, sData []*smt.Term // inputs (Bool / data)
+	empty, full          *smt.Term
 }
 
 func b1(st *smt.Store, t *smt.Term) *smt.Term { return st.Eq(t, st.BV(1, 1)) }
@@ -137,7 +137,9 @@ func c13Run(c c13Cfg, thorough bool) Outcome {
 		o.Queries, o.SolverS, o.WallS = sol.Queries, sol.Seconds, time.Since(t0).Seconds()
 	}()
 	var obls []TermObl
-	add := func(tag string, hyp, concl *smt.Term) { obls = append(obls, TermObl{Tag: tag, Kind: "assert", Hyp: hyp, Concl: concl}) }
+	add := func(tag string, hyp, concl *smt.Term) {
+		obls = append(obls, TermObl{Tag: tag, Kind: "assert", Hyp: hyp, Concl: concl})
+	}
 
 	// ---- 1. inductive step from an arbitrary R-state ----
 	ev := vlog.NewEval(d, st, "")
